@@ -14,6 +14,8 @@ for d in seeded/*/; do
     C01-m5) checks="C07";;     # the change is in Writer.AddIndex (merge)
     C04-m5) checks="C03";;     # the change is in the query normaliser (Conditions.then)
     C10-m5) checks="C02";;     # the change is in index.SearchStreams (shadowing of old versions)
+    C01-m6) checks="C01 C07";;  # the change is in Writer.AddIndex (merge of a chatty stream)
+    C10-m6) checks="C10 C02";;  # the change is in index.buildSearchObjects (three stacked indexes)
     C09-m5) continue;;          # obsolete: its scenario (data query on a tag with converters) is rejected since fix 2d7… (see DESIGN 10.6)
   esac
   python3 lib/mutants.py run $n $checks 2>&1 | grep -v KNOWN | cut -c1-240 >> $OUT.tmp
